@@ -140,38 +140,48 @@ def cases_for(f, dates, times, ks):
 
 
 def run_shards(drv, env, work, dates, times, locale=None):
-    """work: list of (format, ks).  Returns (ncases, bad[list of (format, K, value, ns, line)], samples[list of (format, K, value, ns, line)])"""
+    """work: list of (format, ks).  The driver iterates the value lists itself (RUN) and prints failures and sampled successes only.
+    Returns (ncases, bad[list of (format, K, value, ns, line)], samples[same])"""
     n = core.NCPU
     chunks = [work[i::n] for i in range(n)]
+    pre = ["B " + BASE]
+    if locale:
+        pre += ["LI " + locale, "LF " + locale]
+    for d in dates:
+        y, iy = d.year, d.isocalendar()[0]
+        fl = (1 if (1951 <= y <= 2048 and 1951 <= iy <= 2048) else 0) | (2 if (2000 <= y <= 2009 and 2000 <= iy <= 2009) else 0) | (4 if d.isoweekday() <= 5 else 0)
+        pre.append("D+ %s %d %s" % (d.isoformat(), fl, bizda_text(d) if d.isoweekday() <= 5 else "-"))
+    for t in times:
+        pre.append("T+ " + t)
 
     def one(chunk):
-        lines = ["B " + BASE]
-        if locale:
-            lines += ["LI " + locale, "LF " + locale]
+        lines = list(pre)
         for f, ks in chunk:
             lines.append("F\t" + fstr(f))
-            curK = None
-            for K, v, ns in cases_for(f, dates, times, ks):
-                if K != curK:
-                    lines.append("K %d" % K)
-                    curK = K
-                lines.append("V %s %d" % (v, ns))
-            lines.append("K 0")
-        p = subprocess.run([drv], input=("\n".join(lines) + "\n").encode(), stdout=subprocess.PIPE, stderr=subprocess.PIPE, env=env, timeout=3000)
+            kmask = sum(1 << k for k in ks)
+            lines.append("RUN %s %d %d %d %d" % ({"d": "d", "t": "t", "dt": "x"}[f["k"]], {"all": 0, "century": 1, "decade": 2}[f["win"]], 1 if f["biz"] else 0,
+                                               kmask, 1 if "%N" in f["t"] else 0))
+        p = subprocess.run([drv], input=("\n".join(lines) + "\n").encode(), stdout=subprocess.PIPE, stderr=subprocess.PIPE, env=env, timeout=6000)
         if p.returncode != 0:
             raise core.MachineryError("drv_fmt failed rc=%s %s" % (p.returncode, p.stderr[-800:]))
-        out = p.stdout.decode("utf-8", "replace").split("\n")
-        bad, samp, cnt, i = [], [], 0, 0
-        for f, ks in chunk:
-            for K, v, ns in cases_for(f, dates, times, ks):
-                ln = out[i] if i < len(out) else "?"
-                i += 1
-                cnt += 1
-                if not ln.startswith("="):
-                    if len(bad) < 20000:
-                        bad.append((f, K, v, ns, ln))
-                elif cnt % 9973 == 0:
-                    samp.append((f, K, v, ns, ln))
+        bad, samp, cnt, fi = [], [], 0, 0
+        for ln in p.stdout.decode("utf-8", "replace").split("\n"):
+            if not ln:
+                continue
+            if ln[0] == "#":
+                cnt += int(ln.split("\t")[1])
+                fi += 1
+                continue
+            f = chunk[fi][0] if fi < len(chunk) else chunk[-1][0]
+            parts = ln.split("\t")
+            tag = parts[6].split(" ") if len(parts) > 6 else ["0", "?", "0"]
+            K, v, ns = int(tag[0]) if tag[0].isdigit() else 0, tag[1] if len(tag) > 1 else "?", int(tag[2]) if len(tag) > 2 and tag[2].isdigit() else 0
+            if ln[0] == "=":
+                samp.append((f, K, v, ns, ln))
+            elif len(bad) < 20000:
+                bad.append((f, K, v, ns, ln))
+        if fi != len(chunk):
+            raise core.MachineryError("drv_fmt answered %d of %d formats" % (fi, len(chunk)))
         return cnt, bad, samp
     tot, bad, samp = 0, [], []
     with ThreadPoolExecutor(max_workers=n) as ex:
